@@ -8,6 +8,7 @@ import (
 	"path/filepath"
 	"runtime"
 	"sort"
+	"strings"
 	"sync/atomic"
 	"testing"
 	"testing/synctest"
@@ -26,6 +27,7 @@ var (
 	flagDumpSig = flag.String("verif.dumpsig", "", "write one line per run: index, schedule signature, tape hash (determinism self-test)")
 	flagNoShrk  = flag.Bool("verif.noshrink", false, "do not minimise")
 	flagKeepOn  = flag.Bool("verif.keepgoing", false, "continue after a violation (count them)")
+	flagKnown   = flag.String("verif.known", "", "comma separated rule names of listed known findings: reported once per worker without minimisation, exploration continues")
 )
 
 // Engine describes one simulated check.
@@ -210,6 +212,13 @@ func Main(t *testing.T, e Engine) {
 		return
 	}
 
+	known := map[string]bool{}
+	for _, k := range strings.Split(*flagKnown, ",") {
+		if k != "" {
+			known[k] = true
+		}
+	}
+	knownSeen := map[string]bool{}
 	sigs := map[uint64]struct{}{}
 	var dump *os.File
 	if *flagDumpSig != "" {
@@ -271,6 +280,19 @@ func Main(t *testing.T, e Engine) {
 			if r.Fail.Rule == "harness-panic" {
 				fmt.Fprintf(os.Stderr, "HARNESS PANIC run=%d: %s\n", idx, r.Fail.Msg)
 				os.Exit(2)
+			}
+			if known[r.Fail.Rule] {
+				st.Probes["known-finding."+r.Fail.Rule]++
+				if knownSeen[r.Fail.Rule] {
+					continue
+				}
+				knownSeen[r.Fail.Rule] = true
+				save := *flagNoShrk
+				*flagNoShrk = true
+				v := handleViolation(e, exec, idx, r)
+				*flagNoShrk = save
+				st.Violations = append(st.Violations, v)
+				continue
 			}
 			v := handleViolation(e, exec, idx, r)
 			st.Violations = append(st.Violations, v)
